@@ -12,7 +12,7 @@ import (
 func c16Gen(g *G) {
 	r := g.R
 	hostile := []string{"p", "k", "u", "x", "t", "e", "b", "q12345", "q0", "n77", "B0", "zt", "zc", "N2(x)", "N5(u)", "N6(p)", "N3(q12345)",
-		"tr4", "tr5", "tr8", "tr11", "tr12", "tr13", "tr16", "tr19", "tr20"}
+		"tr4", "tr5", "tr8", "tr11", "tr12", "tr13", "tr16", "tr19", "tr20", "0"}
 	g.Emit("c16.run o g0;w1;b;q12345;x;t;e;u;a0", "each-kind")
 	g.Emit("c16.run o,o g0;w1;close;g1;w2;a1;a0", "close-then-probe")
 	// notifications naming a message the client wrote that is not a request (its own msgs_ack): a real
@@ -28,6 +28,12 @@ func c16Gen(g *G) {
 	// is between two reads of the connection; later requests complete
 	g.Emit("c16.run o,o g0;w1;a0;j;yR*:3000:1;p;s500;X;g1;w2;a1", "reconnect-from-another-goroutine")
 	g.Emit("c16.run o,o,o g0;w1;a0;j;X;g1;w2;a1;j;yR*:2000:2;p;s300;X;X;g2;w3;a2", "reconnect-from-another-goroutine")
+	// frames of more than 2^20 bytes (a long msgs_ack, a big unknown object): the stream stays in step and the
+	// probe completes; the probe's answer arrives before its caller waits for it
+	g.Emit("c16.run o,o kb;g1;w1;a1", "frame-beyond-2^20")
+	g.Emit("c16.run o,o g0;w1;ub;kb;a0;j;g1;w2;c(kb,a1)", "frame-beyond-2^20")
+	g.Emit("c16.run o,o x;b;ycq:2500:1;g1;w1;a1", "yield-caller-held-after-send")
+	g.Emit("c16.run o,o t;ycq:1500:2;g0+1;w2;c(u,a1);a0", "yield-caller-held-after-send")
 	// an rpc_result cut at every length (the client looks into it before decoding it)
 	g.Emit("c16.run o,o tr4;tr5;tr6;tr7;tr8;tr9;tr10;tr11;tr12;g1;w1;c(tr8,tr13,a1)", "truncated-rpc-result")
 	g.Emit("c16.run o,o N5(u);N6(x);N7(p);N5(n88);g1;w1;c(p,a1)", "nested-containers")
